@@ -203,6 +203,11 @@ static void toTopDown(History& h, Pool<BDDBottomUpTreeAut>& bu, Pool<BDDTopDownT
 static void caseC08(uint64_t, vh::Rng& g)
 {
 	History h; h.al = gen::sigma0();
+	// a quarter of the histories: one symbol NAME used with two ranks (s2/1 written as s3, which has rank 2) — the
+	// bottom-up encoding has a single code for the name and keeps the arities apart by the length of the child tuple
+	// (seeded change m108: a memo in GetTopDownAut keyed without the arity)
+	if (g.chance(1, 4)) { h.al.alias.assign(h.al.rank.size(), -1); h.al.alias[2] = 3; R->count("histories-with-a-symbol-name-at-two-ranks"); }
+	vu::dumpAlphabet() = &h.al;
 	Pool<BDDBottomUpTreeAut> bu("bu"); Pool<BDDTopDownTreeAut> td("td");
 	int L = g.range(10, static_cast<int>(R->param("L", 40)));
 	int mode = static_cast<int>(g.below(3));  // 0: bottom-up only, 1: top-down only, 2: both with conversions
@@ -247,7 +252,14 @@ static void pairOps(const char* enc, const Alpha& al, const RTA& a, const RTA& b
 static void caseC08pair(vh::Rng& g)
 {
 	Alpha al; RTA a, b; std::string kind; gen::genPair(g, 5, 9, al, a, b, kind, true);
+	vu::dumpAlphabet() = nullptr;
 	if (a.states().size() > 8 || b.states().size() > 8) { R->count("pair-skipped-large"); return; }
+	if (g.chance(1, 4))
+	{	// one symbol name at two ranks (see caseC08)
+		int i = -1, j = -1; for (size_t x = 0; x < al.rank.size() && i < 0; ++x) for (size_t y = x + 1; y < al.rank.size(); ++y) if (al.rank[x] >= 0 && al.rank[y] >= 0 && al.rank[x] != al.rank[y]) { i = static_cast<int>(x); j = static_cast<int>(y); break; }
+		if (i >= 0) { al.alias.assign(al.rank.size(), -1); al.alias[j] = i; R->count("pairs-with-a-symbol-name-at-two-ranks"); kind += "+overloaded-name"; }
+	}
+	vu::dumpAlphabet() = &al;
 	std::string text = rm::toTimbuk(a, al, "A", "p") + rm::toTimbuk(b, al, "B", "r"); R->desc(text); R->count("pair:" + kind);
 	pairOps<BDDBottomUpTreeAut>("bu", al, a, b, text, g); pairOps<BDDTopDownTreeAut>("td", al, a, b, text, g);
 	{	// bottom-up -> top-down conversion keeps the language
